@@ -36,6 +36,11 @@ def term_pairs(r, thorough):
         out.append((("equ", a, r.choice(["before", "after"])), ("lit", b)))
         out.append((("lit", a), ("equ", b, r.choice(["before", "after"]))))
         out.append((("equ", a, r.choice(["before", "after"])), ("equ", b, r.choice(["before", "after"]))))
+    for _ in range(24 if thorough else 8):       # negative EQU constants: sign handling and truncating division
+        a, b = -r.choice([1, 2, 3, 7, 100, 129, 255, 1000]), r.choice([1, 2, 3, 4, 7, 256])
+        out.append((("equ", a, r.choice(["before", "after"])), ("lit", b)))
+        out.append((("lit", b), ("equ", a, r.choice(["before", "after"]))))
+        out.append((("equ", a, "before"), ("equ", -r.choice([1, 2, 5]), "after")))
     for lab in ("LB", "LA"):
         for n in (0, 1, 2, 5, 255, 256, 1000):
             out.append((("label", lab), ("lit", n)))
@@ -46,7 +51,14 @@ def term_pairs(r, thorough):
     return out
 
 
+def tdiv(a, b):
+    q = abs(a) // abs(b)
+    return q if (a < 0) == (b < 0) else -q
+
+
 def spell_equ(v, r):
+    if v < 0:
+        return "%d" % v
     opts = ["%d" % v, "$%X" % v, "$%04X" % v]
     if v < 256:
         opts += ["$%02X" % v, "%" + format(v, "08b")]
@@ -162,11 +174,27 @@ def run_case(case, ctx):
             ctx.nontriv(stmt)
             ctx.cell("div0-rejected/" + pos)
         return
-    val = a if not op else {"+": a + b, "-": a - b, "*": a * b, "/": a // b if b else 0}[op]
+    val = a if not op else {"+": a + b, "-": a - b, "*": a * b, "/": tdiv(a, b) if b else 0}[op]
     width = WIDTH.get(pos, 16)
     in16 = 0 <= val <= 65535
     if width == 8 and not (0 <= val <= 255):
-        ctx.outcome("skipped-not-representable-in-8-bits")     # C12's subject
+        # an 8-bit position cannot hold the 16-bit result: it must be rejected, or (immediate / FCB, -128..-1) be the
+        # two's complement byte - never anything else
+        if o.outcome == "diag":
+            ctx.outcome("rejected-not-representable-in-8-bits")
+            ctx.cell("8bit-rejected/" + pos)
+            return
+        st8 = bytes(o.stmts[case["target"]]["bytes"])
+        v16 = val % 65536                      # reduction modulo 65536 is allowed first
+        ok8 = len(st8) >= 1 and ((pos in ("imm8", "fcb") and -128 <= val < 0 and st8[-1] == val % 256) or (v16 <= 255 and st8[-1] == v16)
+                                 or (pos in ("imm8", "fcb") and v16 >= 0xFF80 and st8[-1] == v16 % 256))
+        if ok8:
+            ctx.outcome("ok")
+            ctx.cell("8bit-twos-complement/" + pos)
+            ctx.nontriv(stmt)
+        else:
+            ctx.outcome("wrong-value")
+            ctx.violation("expr", pos, "WRONG-VALUE", dict(wit, bytes=st8.hex(), exact=val), dict(tr, result="not-representable-in-8-bits"))
         return
     if pos == "rmb" and (val < 0 or val > 4000):
         ctx.outcome("skipped-rmb-size")
